@@ -34,6 +34,12 @@ function dump(i){ var o=OBJ[i]; var keys=Reflect.ownKeys(o); var ps=[];
 function dumpAll(){ var r=[]; for(var i=0;i<OBJ.length;i++) r.push(dump(i)); return r.join(" | "); }
 function flushLog(){ var s=LOG.length?(" "+LOG.join(" ")):""; LOG.length=0; return s; }
 function TE(f){ try{ return f(); }catch(e){ if(e instanceof TypeError) return "throw"; return "err:"+String(e).replace(/\s+/g,"_"); } }
+var KIND=[], WRAP={gomap:1,goslice:1,goslicecap:1,gostruct:1,dyn:1,dynarr:1,arr:1,sparr:1};
+function invKeys(){ var out=[]; for(var i=0;i<OBJ.length;i++){ if(!WRAP[KIND[i]]) continue; var o=OBJ[i], keys=Reflect.ownKeys(o), cand=['length','0','1','7','a','A','B','constructor'];
+  for(var j=0;j<cand.length;j++){ var c=cand[j]; if(keys.indexOf(c)>=0) continue; var d; try{ d=Reflect.getOwnPropertyDescriptor(o,c); }catch(e){ continue; } if(d===undefined) continue;
+    if(d.configurable===false) out.push(" @INV ownKeys-omits-nonconfigurable o"+i+" "+ktok(c)); else if(!Object.isExtensible(o)) out.push(" @INV ownKeys-omits-key-of-nonextensible o"+i+" "+ktok(c)); } }
+  return out.join(""); }
+function preConf(o,k){ try{ var d=Reflect.getOwnPropertyDescriptor(o,k); return d===undefined?"n":(d.configurable?"c":"N"); }catch(e){ return "e"; } }
 `
 
 type dynObj struct{ m map[string]goja.Value }
@@ -104,11 +110,13 @@ type goStruct struct {
 }
 
 type state struct {
-	r    *goja.Runtime
-	objs []*goja.Object
-	vals []goja.Value   // table pools
-	fns  []*goja.Object // table pools
-	tr   *goja.Runtime
+	r     *goja.Runtime
+	objs  []*goja.Object
+	vals  []goja.Value   // table pools
+	fns   []*goja.Object // table pools
+	tr    *goja.Runtime
+	kinds []string // kind of each object of the case
+	inv   string   // operation-level essential-invariant annotations of the current op (wrapper kinds)
 }
 
 func (s *state) js(src string) string {
@@ -281,6 +289,7 @@ func (s *state) checkOrder() string {
 func (s *state) newCase() {
 	s.r = goja.New()
 	s.objs = nil
+	s.kinds = nil
 	if _, err := s.r.RunString(prelude); err != nil {
 		panic(err)
 	}
@@ -368,6 +377,11 @@ func (s *state) mk(id int, kind, proto string) string {
 		s.objs = append(s.objs, nil)
 	}
 	s.objs[id] = o
+	for len(s.kinds) <= id {
+		s.kinds = append(s.kinds, "")
+	}
+	s.kinds[id] = kind
+	s.js("KIND[" + strconv.Itoa(id) + "]=" + strconv.Quote(kind))
 	if proto == "null" || strings.HasPrefix(proto, "o") {
 		s.js("TE(function(){Object.setPrototypeOf(OBJ[" + strconv.Itoa(id) + "]," + protoExpr(proto) + ");return 'ok'})")
 	}
@@ -416,6 +430,24 @@ func tableCell(s *state, w []string) string {
 		return fmt.Sprintf("P 1 %d", res.Value)
 	}
 	return fmt.Sprintf("P 2 %d %s %s %s %s %d %d", res.Value, b(res.Writable), b(res.Enumerable), b(res.Configurable), b(res.Accessor), res.Getter, res.Setter)
+}
+
+var wrapperKind = map[string]bool{"gomap": true, "goslice": true, "goslicecap": true, "gostruct": true, "dyn": true, "dynarr": true, "arr": true, "sparr": true}
+
+func (s *state) del(via, o, k string, obj func(string) *goja.Object, O func(string) string, goName func(string) string) string {
+	switch via {
+	case "G":
+		if k[0] == 'y' {
+			return okErr(obj(o).DeleteSymbol(s.sym(k)))
+		}
+		return okErr(obj(o).Delete(goName(k)))
+	case "R":
+		return s.js("TE(function(){return tf(Reflect.deleteProperty(" + O(o) + "," + keyExpr(k) + "))})")
+	case "T":
+		return s.js("TE(function(){'use strict';return tf(delete " + O(o) + "[" + keyExpr(k) + "])})")
+	default:
+		return s.js("TE(function(){return tf(delete " + O(o) + "[" + keyExpr(k) + "])})")
+	}
 }
 
 func (s *state) op(w []string) string {
@@ -519,19 +551,17 @@ func (s *state) op(w []string) string {
 		}
 	case "del":
 		via, o, k := w[1], w[2], w[3]
-		switch via {
-		case "G":
-			if k[0] == 'y' {
-				return okErr(obj(o).DeleteSymbol(s.sym(k)))
+		if oi, _ := strconv.Atoi(o[1:]); oi < len(s.kinds) && wrapperKind[s.kinds[oi]] {
+			// ECMA-262 6.1.7.3 [[Delete]]: "If P was previously observed as a non-configurable own data or accessor property
+			// of the target, [[Delete]] must return false" (wrapper kinds only: they have no Lean model judging the answer)
+			pre := s.js("preConf(" + O(o) + "," + keyExpr(k) + ")")
+			res := s.del(via, o, k, obj, O, goName)
+			if pre == "N" && (res == "t" || res == "ok") {
+				s.inv += " @INV delete-true-on-nonconfigurable " + o + " " + k
 			}
-			return okErr(obj(o).Delete(goName(k)))
-		case "R":
-			return s.js("TE(function(){return tf(Reflect.deleteProperty(" + O(o) + "," + keyExpr(k) + "))})")
-		case "T":
-			return s.js("TE(function(){'use strict';return tf(delete " + O(o) + "[" + keyExpr(k) + "])})")
-		default:
-			return s.js("TE(function(){return tf(delete " + O(o) + "[" + keyExpr(k) + "])})")
+			return res
 		}
+		return s.del(via, o, k, obj, O, goName)
 	case "has":
 		via, o, k := w[1], w[2], w[3]
 		if via == "R" {
@@ -670,9 +700,12 @@ func main() {
 			s.js("LOG.length=0")
 		}
 		po := s.checkOrder()
+		inv := s.inv
+		s.inv = ""
 		if dump {
 			res += " # " + s.js("dumpAll()")
+			inv += s.js("invKeys()")
 		}
-		return res + po
+		return res + po + inv
 	})
 }
